@@ -26,7 +26,7 @@ type goType struct {
 }
 
 var c16Basics = []string{"bool", "string", "int", "int8", "int16", "int32", "int64", "uint", "uint8", "uint16", "uint32", "uint64", "float32", "float64", "byte", "rune"}
-var c16Specials = []string{"time.Time", "json.RawMessage", "interface{}", "[]byte", "NamedInt", "NamedString", "NamedStruct", "NamedSlice", "NamedMap", "AliasStruct", "*NamedStruct", "strfmt.UUID", "strfmt.Date", "NamedBytes", "any"}
+var c16Specials = []string{"time.Time", "json.RawMessage", "interface{}", "[]byte", "NamedInt", "NamedString", "NamedStruct", "NamedSlice", "NamedMap", "AliasStruct", "*NamedStruct", "strfmt.UUID", "strfmt.Date", "NamedBytes", "any", "TextVal", "*TextPtr", "map[KindKey]int32", "map[KindKey]NamedStruct"}
 var c16Wrappers = []string{"*", "[]", "[2]", "map[string]"}
 var c16Tags = []struct{ name, tag string }{
 	{"none", ""}, {"rename", `json:"renamed"`}, {"dash", `json:"-"`}, {"omitempty", `json:"f,omitempty"`}, {"string", `json:"f,string"`}, {"rename+omitempty", `json:"renamed,omitempty"`}, {"only-omitempty", `json:",omitempty"`},
@@ -75,11 +75,15 @@ package scanpkg
 
 import (
 	"encoding/json"
+	"strconv"
+	"strings"
 	"time"
 
 	"github.com/go-openapi/strfmt"
 )
 
+var _ = strconv.Itoa
+var _ = strings.TrimPrefix
 var _ = json.RawMessage{}
 var _ = time.Time{}
 var _ = strfmt.UUID("")
@@ -100,6 +104,42 @@ type NamedStruct struct {
 	A string ` + "`json:\"a\"`" + `
 	B int16  ` + "`json:\"b,omitempty\"`" + `
 }
+
+// TextVal encodes as text through value receivers.
+type TextVal struct{ N int }
+
+// MarshalText implements encoding.TextMarshaler.
+func (t TextVal) MarshalText() ([]byte, error) { return []byte("v" + strconv.Itoa(t.N)), nil }
+
+// UnmarshalText implements encoding.TextUnmarshaler.
+func (t *TextVal) UnmarshalText(b []byte) error {
+	// any text is accepted: what matters is that the JSON value is a string
+	n, err := strconv.Atoi(strings.TrimPrefix(string(b), "v"))
+	if err != nil {
+		n = len(b)
+	}
+	t.N = n
+	return nil
+}
+
+// TextPtr encodes as text through pointer receivers only.
+type TextPtr struct{ N int }
+
+// MarshalText implements encoding.TextMarshaler.
+func (t *TextPtr) MarshalText() ([]byte, error) { return []byte("p" + strconv.Itoa(t.N)), nil }
+
+// UnmarshalText implements encoding.TextUnmarshaler.
+func (t *TextPtr) UnmarshalText(b []byte) error {
+	n, err := strconv.Atoi(strings.TrimPrefix(string(b), "p"))
+	if err != nil {
+		n = len(b)
+	}
+	t.N = n
+	return nil
+}
+
+// KindKey is a named string type used as a map key.
+type KindKey string
 
 // NamedSlice is a named slice type.
 type NamedSlice []string
@@ -567,6 +607,21 @@ func RunC16(tier, replay string) int {
 				n++
 				l = append(l, c16Case{Type: t, Doc: mustJSON(cj)})
 			}
+			// a property whose schema says nothing accepts any JSON value: each kind must decode
+			if props, ok := resolveRef(sch, root)["properties"].(J); ok {
+				for pn, ps := range props {
+					if !emptySchema(resolveRef(ps.(J), root)) {
+						continue
+					}
+					for _, v := range []interface{}{5, "x", true, A{1}, J{"a": 1}} {
+						doc := J{"g": "va"}
+						doc[pn] = v
+						if refValidKeepDefaults(sch, root, normalizeJSON(doc)) {
+							l = append(l, c16Case{Type: t, Doc: mustJSON(doc)})
+						}
+					}
+				}
+			}
 		}
 		perType[ti] = l
 	})
@@ -640,6 +695,17 @@ func RunC16(tier, replay string) int {
 		r.CaseKeyed("dec|"+m.Type.Name+string(m.Doc), map[string]interface{}{"type": m.Type.Desc, "doc": json.RawMessage(m.Doc)}, true, out)
 	})
 	return r.Finish()
+}
+
+// emptySchema: no keyword that constrains the value (descriptions and extensions aside).
+func emptySchema(s J) bool {
+	for k := range s {
+		if k == "description" || k == "title" || strings.HasPrefix(k, "x-") {
+			continue
+		}
+		return false
+	}
+	return true
 }
 
 // keyMismatch compares the keys of a fully populated encoding with the declared properties.
